@@ -26,7 +26,7 @@ PY
   git -C /repo worktree remove --force $WT 2>/dev/null
   git -C /repo worktree add --detach $WT -q || exit 2
   if ! git -C $WT apply /verif/$d/patch.diff 2>/dev/null; then
-    if ! (git -C $WT checkout -q --detach 6c0073a && git -C $WT apply /verif/$d/patch.diff 2>/dev/null); then echo "!! $name: patch no longer applies"; git -C /repo worktree remove --force $WT; continue; fi
+    if ! (git -C $WT checkout -q --detach 527b99c && git -C $WT apply /verif/$d/patch.diff 2>/dev/null) && ! (git -C $WT checkout -q -- . ; git -C $WT checkout -q --detach 6c0073a && git -C $WT apply /verif/$d/patch.diff 2>/dev/null); then echo "!! $name: patch no longer applies"; git -C /repo worktree remove --force $WT; continue; fi
   fi
   caught=""
   for id in $checks; do
